@@ -311,6 +311,8 @@ def scenarios(draw, prof: dict | None = None):
     sc["options"] = {"random_seed": draw(S_SEED), "hibernation": (draw(S_BOOL) if hp is None else (draw(st.integers(0, 9)) < hp * 10))}
     sc["cutoff"] = draw(st.integers(1, max(2, 6 * approx)))
     sc["precision_eps"] = draw(st.sampled_from([1e-9, 1e-3, 0.05, 0.5]))
+    if prof.get("extra") is not None:
+        sc["extra"] = draw(prof["extra"])
     return sc
 
 
